@@ -159,7 +159,7 @@ def _get_watcher(path):
         watcher = _IDLE_WATCHERS.pop()
         watcher.add_dir(path)
         return watcher
-    return dirwatch.DirWatcher(path)
+    return simkit.with_os_resource(lambda: dirwatch.DirWatcher(path))
 
 
 def _release_watcher(watcher):
